@@ -88,9 +88,9 @@ func (ln *listener) Accept() (net.Conn, error) {
 
 // Close implements Listener.
 func (ln *listener) Close() error {
-	if ln.fd != 0 {
-		syscall.Close(ln.fd)
-	}
+	// ln.fd is the descriptor of ln.file (see parseFD) and must be closed through its owner only:
+	// closing the raw number as well closes it twice, and the second close can hit a descriptor
+	// that another goroutine has just been given under the same number.
 	if ln.file != nil {
 		ln.file.Close()
 	}
